@@ -21,6 +21,8 @@ struct FileSpec {
   unsigned nlink_extra = 0;   // additional hard links (names: name + ".lnk<i>")
   int64_t atime_s = 1500000000, atime_ns = 123456789, mtime_s = 1400000000, mtime_ns = 987654321;
   bool noread = false;
+  int64_t visible = -1;       // growing-file fault: bytes present when the run starts (-1: the whole file)
+  int grow_at = 0;            // index of the read() on this file at which the rest appears
 };
 
 struct RunCfg {
@@ -40,6 +42,7 @@ struct RunCfg {
   sim::Sched sched;
   uint8_t junk = 0xA5;
   uint64_t step_budget = 0;
+  int64_t op2_visible = -1; int op2_grow_at = 0;   // with operand2 (compression): the operand is still being appended to while lbzip2 reads it
   bool operand2 = false;                  // filter-style run turned into "lbzip2 [opts] <first> <f>": the data arrives as the SECOND FILE operand of the
                                           // invocation, after a small valid first one, and the result's `out` is the content of f's output file
                                           // (state a finished operand leaves behind must not matter: seeded changes C05-3, C02-3)
